@@ -261,7 +261,11 @@ def parseElispEscape (fuel : Nat) (acc : List UInt8) : P (List UInt8 × ElispEsc
   let c ← nextOrEof
   if c == 34 then pure (acc ++ [34], .indeterminate)
   else if c == 92 then pure (acc ++ [92], .indeterminate)
-  else if c == 32 then pure (acc, .indeterminate)
+  else if c == 32 then do
+    -- escaped blank: ignored; a continuation byte cannot follow it in valid UTF-8
+    match (← peek) with
+    | some b => if 128 ≤ b && b ≤ 191 then errAt .invalidUnicodeCodePoint else pure (acc, .indeterminate)
+    | none => pure (acc, .indeterminate)
   else if c == 97 then pure (acc ++ [7], .indeterminate)
   else if c == 98 then pure (acc ++ [8], .indeterminate)
   else if c == 116 then pure (acc ++ [9], .indeterminate)
